@@ -156,7 +156,7 @@ func hypsOfKind(kind string, thorough bool) []*GeomHyp {
 // freeFloat: a finite unknown input with its own identity.
 func (it *Interp) freeFloat() AV {
 	it.nextSym++
-	return FloatV{Finite: true, Sym: it.nextSym}
+	return FloatV{Finite: true, Sym: it.nextSym, Input: true}
 }
 
 // build materialises a hypothesis in the state's heap and returns the value of
